@@ -243,6 +243,8 @@ func specOpt6OK(code int, v string, kind int) bool {
 //@   ensures[eabits] err == nil ==> int(op.EABitsLength) == int(a0[2])
 //@   ensures[prefix4] err == nil ==> string(op.Prefix4.IP) == a0[4:8]
 //@   ensures[prefix6] err == nil ==> string(op.Prefix6.IP) == a0[8:24]
+//@   ensures[masks] err == nil ==> (int(a0[0]) <= 32 ==> dhcpv4.SpecMaskOnes(string(op.Prefix4.Mask)) == int(a0[0])) && (int(a0[1]) <= 128 ==> dhcpv4.SpecMaskOnes(string(op.Prefix6.Mask)) == int(a0[1]))
+//@   ensures[wkp] err == nil ==> op.WKPAuthorized == (int(a0[3]) >= 128)
 
 //@ contract (*Opt4RDNonMapRule).FromBytes
 //@   let a0 = string(data)
@@ -572,7 +574,12 @@ func specZeros(n int) string {
 }
 
 // big-endian encodings of 16/32-bit unsigned values
+//@ contract specEnc16
+//@   ensures len(result) == 2
 func specEnc16(v int) string { return specByte(v/256) + specByte(v) }
+
+//@ contract specEnc32
+//@   ensures len(result) == 4
 func specEnc32(v int) string {
 	return specByte(v/16777216) + specByte(v/65536) + specByte(v/256) + specByte(v)
 }
@@ -761,3 +768,266 @@ func lemmaEnc32Cat(a string, v int) {}
 //@   loop 0 invariant[lexer] lexOK(buf) && buf.err == nil && (ref(buf.Buffer.data) == 0 || fresh(buf.Buffer.data))
 //@   loop 0 invariant[length] len(buf.Buffer.data) == 2*(rangeindex+1) && rangeval == o
 //@   loop 0 invariant[layout] forall i int :: {o[i]} 0 <= i && i <= rangeindex ==> string(buf.Buffer.data)[2*i:2*i+2] == specEnc16(int(o[i]))
+
+// ---------- C02: round trips. Each function below is ghost client code (compiled only under the verif tag): it runs the
+// real encoder and the real decoder and asserts that the decoded value equals the original. The verifier checks it
+// modularly, against the contracts of ToBytes and FromBytes (each verified against the function bodies), for every value
+// of the receiver that satisfies the stated representability precondition. ----------
+
+func verifAssert(b bool) {}
+
+// lemmaU32At: four bytes that are the big-endian encoding of v read back as v
+//@ contract lemmaU32At
+//@   requires p >= 0 && p+4 <= len(a) && v >= 0 && v < 4294967296 && a[p:p+4] == specEnc32(v)
+//@   ensures specU32At(a, p) == v
+func lemmaU32At(a string, p int, v int) {}
+
+//@ contract lemmaRTElapsedTime
+//@   requires op != nil
+//@   requires op.ElapsedTime >= 0 && int(op.ElapsedTime) <= 655350000000 && int(op.ElapsedTime)%10000000 == 0
+func lemmaRTElapsedTime(op *optElapsedTime) {
+	b := op.ToBytes()
+	var q optElapsedTime
+	err := q.FromBytes(b)
+	verifAssert(err == nil)
+	verifAssert(q.ElapsedTime == op.ElapsedTime)
+}
+
+//@ contract lemmaRTInformationRefreshTime
+//@   requires op != nil
+//@   requires secsOK(op.InformationRefreshtime) && int(op.InformationRefreshtime)%1000000000 == 0
+func lemmaRTInformationRefreshTime(op *optInformationRefreshTime) {
+	b := op.ToBytes()
+	var q optInformationRefreshTime
+	err := q.FromBytes(b)
+	verifAssert(err == nil)
+	verifAssert(q.InformationRefreshtime == op.InformationRefreshtime)
+}
+
+//@ contract lemmaRTStatusCode
+//@   requires op != nil
+func lemmaRTStatusCode(op *OptStatusCode) {
+	b := op.ToBytes()
+	var q OptStatusCode
+	err := q.FromBytes(b)
+	verifAssert(err == nil)
+	verifAssert(q.StatusCode == op.StatusCode)
+	verifAssert(q.StatusMessage == op.StatusMessage)
+}
+
+//@ contract lemmaRTRemoteID
+//@   requires op != nil
+func lemmaRTRemoteID(op *OptRemoteID) {
+	b := op.ToBytes()
+	var q OptRemoteID
+	err := q.FromBytes(b)
+	verifAssert(err == nil)
+	verifAssert(q.EnterpriseNumber == op.EnterpriseNumber)
+	verifAssert(string(q.RemoteID) == string(op.RemoteID))
+}
+
+//@ contract lemmaRTClientLinkLayerAddress
+//@   requires op != nil
+func lemmaRTClientLinkLayerAddress(op *optClientLinkLayerAddress) {
+	b := op.ToBytes()
+	var q optClientLinkLayerAddress
+	err := q.FromBytes(b)
+	verifAssert(err == nil)
+	verifAssert(q.LinkLayerType == op.LinkLayerType)
+	verifAssert(string(q.LinkLayerAddress) == string(op.LinkLayerAddress))
+}
+
+//@ contract lemmaRTNII
+//@   requires op != nil
+func lemmaRTNII(op *OptNetworkInterfaceID) {
+	b := op.ToBytes()
+	var q OptNetworkInterfaceID
+	err := q.FromBytes(b)
+	verifAssert(err == nil)
+	verifAssert(q.Typ == op.Typ && q.Major == op.Major && q.Minor == op.Minor)
+}
+
+//@ contract lemmaRTRelayPort
+//@   requires op != nil
+func lemmaRTRelayPort(op *optRelayPort) {
+	b := op.ToBytes()
+	var q optRelayPort
+	err := q.FromBytes(b)
+	verifAssert(err == nil)
+	verifAssert(q.DownstreamSourcePort == op.DownstreamSourcePort)
+}
+
+//@ contract lemmaRTBootFileURL
+//@   requires op != nil
+func lemmaRTBootFileURL(op *optBootFileURL) {
+	b := op.ToBytes()
+	var q optBootFileURL
+	err := q.FromBytes(b)
+	verifAssert(err == nil)
+	verifAssert(q.url == op.url)
+}
+
+//@ contract lemmaRTInterfaceID
+//@   requires op != nil
+func lemmaRTInterfaceID(op *optInterfaceID) {
+	b := op.ToBytes()
+	var q optInterfaceID
+	err := q.FromBytes(b)
+	verifAssert(err == nil)
+	verifAssert(string(q.ID) == string(op.ID))
+}
+
+//@ contract lemmaRTGeneric
+//@   requires op != nil
+func lemmaRTGeneric(op *OptionGeneric) {
+	b := op.ToBytes()
+	var q OptionGeneric
+	err := q.FromBytes(b)
+	verifAssert(err == nil)
+	verifAssert(string(q.OptionData) == string(op.OptionData))
+}
+
+//@ contract lemmaRT4RDNonMapRule
+//@   requires op != nil
+func lemmaRT4RDNonMapRule(op *Opt4RDNonMapRule) {
+	b := op.ToBytes()
+	var q Opt4RDNonMapRule
+	err := q.FromBytes(b)
+	verifAssert(err == nil)
+	verifAssert(q.DomainPMTU == op.DomainPMTU)
+}
+
+//@ contract lemmaRTDUIDLLT
+//@   requires d != nil
+func lemmaRTDUIDLLT(d *DUIDLLT) {
+	b := d.ToBytes()
+	verifAssert(len(b) >= 2 && int(b[0]) == 0 && int(b[1]) == 1)
+	var q DUIDLLT
+	err := q.FromBytes(b[2:])
+	verifAssert(err == nil)
+	verifAssert(q.HWType == d.HWType && q.Time == d.Time)
+	verifAssert(string(q.LinkLayerAddr) == string(d.LinkLayerAddr))
+}
+
+//@ contract lemmaRTDUIDLL
+//@   requires d != nil
+func lemmaRTDUIDLL(d *DUIDLL) {
+	b := d.ToBytes()
+	verifAssert(len(b) >= 2 && int(b[0]) == 0 && int(b[1]) == 3)
+	var q DUIDLL
+	err := q.FromBytes(b[2:])
+	verifAssert(err == nil)
+	verifAssert(q.HWType == d.HWType)
+	verifAssert(string(q.LinkLayerAddr) == string(d.LinkLayerAddr))
+}
+
+//@ contract lemmaRTDUIDEN
+//@   requires d != nil
+func lemmaRTDUIDEN(d *DUIDEN) {
+	b := d.ToBytes()
+	verifAssert(len(b) >= 2 && int(b[0]) == 0 && int(b[1]) == 2)
+	var q DUIDEN
+	err := q.FromBytes(b[2:])
+	verifAssert(err == nil)
+	verifAssert(q.EnterpriseNumber == d.EnterpriseNumber)
+	verifAssert(string(q.EnterpriseIdentifier) == string(d.EnterpriseIdentifier))
+}
+
+//@ contract lemmaRTIANAHeader
+//@   requires op != nil && secsOK(op.T1) && secsOK(op.T2) && int(op.T1)%1000000000 == 0 && int(op.T2)%1000000000 == 0
+func lemmaRTIANAHeader(op *OptIANA) {
+	b := op.ToBytes()
+	lemmaU32At(string(b), 4, specSecs(int(op.T1)))
+	lemmaU32At(string(b), 8, specSecs(int(op.T2)))
+	var q OptIANA
+	if err := q.FromBytes(b); err == nil {
+		verifAssert(q.IaId == op.IaId)
+		verifAssert(q.T1 == op.T1 && q.T2 == op.T2)
+	}
+}
+
+//@ contract lemmaRTIAPDHeader
+//@   requires op != nil && secsOK(op.T1) && secsOK(op.T2) && int(op.T1)%1000000000 == 0 && int(op.T2)%1000000000 == 0
+func lemmaRTIAPDHeader(op *OptIAPD) {
+	b := op.ToBytes()
+	lemmaU32At(string(b), 4, specSecs(int(op.T1)))
+	lemmaU32At(string(b), 8, specSecs(int(op.T2)))
+	var q OptIAPD
+	if err := q.FromBytes(b); err == nil {
+		verifAssert(q.IaId == op.IaId)
+		verifAssert(q.T1 == op.T1 && q.T2 == op.T2)
+	}
+}
+
+//@ contract lemmaRTIATAHeader
+//@   requires op != nil
+func lemmaRTIATAHeader(op *OptIATA) {
+	b := op.ToBytes()
+	var q OptIATA
+	if err := q.FromBytes(b); err == nil {
+		verifAssert(q.IaId == op.IaId)
+	}
+}
+
+//@ contract lemmaRTIAAddressHeader
+//@   requires op != nil && len(op.IPv6Addr) == 16 && secsOK(op.PreferredLifetime) && secsOK(op.ValidLifetime) && int(op.PreferredLifetime)%1000000000 == 0 && int(op.ValidLifetime)%1000000000 == 0
+func lemmaRTIAAddressHeader(op *OptIAAddress) {
+	b := op.ToBytes()
+	lemmaU32At(string(b), 16, specSecs(int(op.PreferredLifetime)))
+	lemmaU32At(string(b), 20, specSecs(int(op.ValidLifetime)))
+	var q OptIAAddress
+	if err := q.FromBytes(b); err == nil {
+		verifAssert(string(q.IPv6Addr) == string(op.IPv6Addr))
+		verifAssert(q.PreferredLifetime == op.PreferredLifetime && q.ValidLifetime == op.ValidLifetime)
+	}
+}
+
+//@ contract lemmaRTVendorOptsHeader
+//@   requires op != nil
+func lemmaRTVendorOptsHeader(op *OptVendorOpts) {
+	b := op.ToBytes()
+	var q OptVendorOpts
+	if err := q.FromBytes(b); err == nil {
+		verifAssert(q.EnterpriseNumber == op.EnterpriseNumber)
+	}
+}
+
+//@ contract lemmaRTMessageHeader
+//@   requires m != nil && m.MessageType != MessageTypeRelayForward && m.MessageType != MessageTypeRelayReply
+func lemmaRTMessageHeader(m *Message) {
+	b := m.ToBytes()
+	if q, err := MessageFromBytes(b); err == nil {
+		verifAssert(q.MessageType == m.MessageType)
+		verifAssert(q.TransactionID == m.TransactionID)
+	}
+}
+
+//@ contract lemmaRTRelayHeader
+//@   requires r != nil && (r.MessageType == MessageTypeRelayForward || r.MessageType == MessageTypeRelayReply) && len(r.LinkAddr) == 16 && len(r.PeerAddr) == 16
+func lemmaRTRelayHeader(r *RelayMessage) {
+	b := r.ToBytes()
+	if q, err := RelayMessageFromBytes(b); err == nil {
+		verifAssert(q.MessageType == r.MessageType && q.HopCount == r.HopCount)
+		verifAssert(string(q.LinkAddr) == string(r.LinkAddr) && string(q.PeerAddr) == string(r.PeerAddr))
+	}
+}
+
+//@ contract (*Opt4RDMapRule).ToBytes
+//@   ensures[lengths] len(result) == 24 && string(result)[0:1] == specByte(dhcpv4.SpecMaskOnes(string(op.Prefix4.Mask))) && string(result)[1:2] == specByte(dhcpv4.SpecMaskOnes(string(op.Prefix6.Mask)))
+//@   ensures[eabits] string(result)[2:3] == specByte(int(op.EABitsLength)) && string(result)[3:4] == specByte(ite(op.WKPAuthorized, 128, 0))
+//@   ensures[prefix4] len(op.Prefix4.IP) == 4 ==> string(result)[4:8] == string(op.Prefix4.IP)
+//@   ensures[prefix6] len(op.Prefix6.IP) == 16 ==> string(result)[8:24] == string(op.Prefix6.IP)
+
+//@ contract lemmaRT4RDMapRule
+//@   requires op != nil && len(op.Prefix4.IP) == 4 && len(op.Prefix6.IP) == 16
+//@   requires dhcpv4.SpecMaskOnes(string(op.Prefix4.Mask)) <= 32 && dhcpv4.SpecMaskOnes(string(op.Prefix6.Mask)) <= 128
+func lemmaRT4RDMapRule(op *Opt4RDMapRule) {
+	b := op.ToBytes()
+	var q Opt4RDMapRule
+	err := q.FromBytes(b)
+	verifAssert(err == nil)
+	verifAssert(q.EABitsLength == op.EABitsLength && q.WKPAuthorized == op.WKPAuthorized)
+	verifAssert(string(q.Prefix4.IP) == string(op.Prefix4.IP) && string(q.Prefix6.IP) == string(op.Prefix6.IP))
+	verifAssert(dhcpv4.SpecMaskOnes(string(q.Prefix4.Mask)) == dhcpv4.SpecMaskOnes(string(op.Prefix4.Mask)))
+	verifAssert(dhcpv4.SpecMaskOnes(string(q.Prefix6.Mask)) == dhcpv4.SpecMaskOnes(string(op.Prefix6.Mask)))
+}
